@@ -27,7 +27,7 @@ def plan(tier):
 
 
 def n_cases(tier):
-    return 20000 if tier == 'thorough' else 600
+    return 80000 if tier == 'thorough' else 600
 
 
 def one_case(rng, tier):
